@@ -1,7 +1,9 @@
 /* Configuration header of the verification build (replaces the cmake-generated a.cmake.h).
    LP64, little endian, a_real = double, every A_HAVE_* libm switch OFF so that the
    library's own fallback bodies are the code under contract (C10/C11). */
+#ifndef A_SIZE_POINTER /* a unit may select the unpacked node layout with -DA_SIZE_POINTER=2 */
 #define A_SIZE_POINTER 8
+#endif
 #define A_BYTE_ORDER 1234
 #ifndef A_SIZE_REAL
 #define A_SIZE_REAL 8
